@@ -224,7 +224,7 @@ func (lp *LP) entails(cons []Lin, goal Lin, full bool) bool {
 		return goal.C <= 0
 	}
 	neg := goal.Neg().AddK(1) // -L + 1 ≤ 0
-	rel, complete := slice(cons, goal, 3)
+	rel, complete := slice(cons, goal, 6)
 	q := make([]Lin, 0, len(rel)+1)
 	q = append(q, rel...)
 	q = append(q, neg)
